@@ -79,20 +79,24 @@
  *    strnatcmp_s() wcscmp_s()
  */
 
-/* TODO: bounds check */
-static int compare_right(wchar_t const *a, wchar_t const *b) {
+/* The digit runs are compared within the bounds of both operands: na and nb
+   are the characters left in a and b, a run ends there as at a terminator. */
+static int compare_right(wchar_t const *a, size_t na, wchar_t const *b,
+                         size_t nb) {
     int bias = 0;
 
     /* The longest run of digits wins.  That aside, the greatest
        value wins, but we can't know that it will until we've scanned
        both numbers to know that they have the same magnitude, so we
        remember it in BIAS. */
-    for (;; a++, b++) {
-        if (!iswdigit((wint_t)*a) && !iswdigit((wint_t)*b))
+    for (;; a++, b++, na--, nb--) {
+        const int da = na && iswdigit((wint_t)*a);
+        const int db = nb && iswdigit((wint_t)*b);
+        if (!da && !db)
             return bias;
-        if (!iswdigit((wint_t)*a))
+        if (!da)
             return -1;
-        if (!iswdigit((wint_t)*b))
+        if (!db)
             return +1;
         if (*a < *b) {
             if (!bias)
@@ -100,23 +104,24 @@ static int compare_right(wchar_t const *a, wchar_t const *b) {
         } else if (*a > *b) {
             if (!bias)
                 bias = +1;
-        } else if (!*a && !*b)
-            return bias;
+        }
     }
 
     return 0;
 }
 
-/* TODO: bounds check */
-static int compare_left(wchar_t const *a, wchar_t const *b) {
+static int compare_left(wchar_t const *a, size_t na, wchar_t const *b,
+                        size_t nb) {
     /* Compare two left-aligned numbers: the first to have a
        different value wins. */
-    for (;; a++, b++) {
-        if (!iswdigit((wint_t)*a) && !iswdigit((wint_t)*b))
+    for (;; a++, b++, na--, nb--) {
+        const int da = na && iswdigit((wint_t)*a);
+        const int db = nb && iswdigit((wint_t)*b);
+        if (!da && !db)
             return 0;
-        if (!iswdigit((wint_t)*a))
+        if (!da)
             return -1;
-        if (!iswdigit((wint_t)*b))
+        if (!db)
             return +1;
         if (*a < *b)
             return -1;
@@ -198,32 +203,38 @@ EXPORT errno_t _wcsnatcmp_s_chk(const wchar_t *dest, rsize_t dmax,
         }
         dest = d1;
         src = d2;
-        dmax = l1;
-        smax = l2;
+        /* the folded strings with their terminators */
+        dmax = l1 + 1;
+        smax = l2 + 1;
     }
 
     ai = bi = 0;
     while (ai < dmax) {
         int fractional;
         wchar_t ca = dest[ai];
-        wchar_t cb = src[bi];
+        wchar_t cb = bi < smax ? src[bi] : L'\0';
 
-        /* skip over leading spaces or zeros */
-        while (iswspace((wint_t)ca))
-            ca = dest[++ai];
+        /* skip over leading spaces or zeros, inside the operands */
+        while (iswspace((wint_t)ca)) {
+            if (++ai >= dmax) /* the first dmax characters compared equal */
+                goto eok;
+            ca = dest[ai];
+        }
 
         while (iswspace((wint_t)cb))
-            cb = src[++bi];
+            cb = ++bi < smax ? src[bi] : L'\0';
 
         /* process run of digits */
         if (iswdigit((wint_t)ca) && iswdigit((wint_t)cb)) {
             fractional = (ca == L'0' || cb == L'0');
 
             if (fractional) {
-                if ((*resultp = compare_left(dest + ai, src + bi)) != 0) {
+                if ((*resultp = compare_left(dest + ai, dmax - ai, src + bi,
+                                             smax - bi)) != 0) {
                     goto eok;
                 }
-            } else if ((*resultp = compare_right(dest + ai, src + bi)) != 0) {
+            } else if ((*resultp = compare_right(dest + ai, dmax - ai,
+                                                 src + bi, smax - bi)) != 0) {
                 goto eok;
             }
         }
